@@ -9,7 +9,8 @@
 From Coq Require Import String List NArith ZArith Bool Lia ZifyN ZifyNat ZifyBool.
 From J5V.lib Require Import Text Outcome.
 From J5V.model Require Import BclLexer BclParser BclFmt.
-From J5V.proofs Require Import BclTextProofs BclFmtProofs BclFmtBytesProofs.
+From J5V.proofs Require Import BclPosProofs BclLexerProofs BclLexerCoverProofs BclParserProofs BclWalkCoverProofs BclTextProofs BclFmtProofs
+  BclFragWfProofs BclFmtFileProofs BclDescGapProofs BclFmtRoundProofs BclLineNoProofs BclWalkPosProofs BclWalkBackProofs BclFmtIdemProofs BclFmtBytesProofs.
 Import ListNotations.
 Local Open Scope Z_scope.
 Arguments Nat.sub : simpl never.
@@ -146,4 +147,96 @@ Proof.
   apply fmt_diffs_of_aligned; [|exact Ha].
   unfold collect_fmt in Hc. destruct (collect_fragments (utf8_decode y)) as [fs|e|p|]; try discriminate.
   cbn [omap] in Hc. injection Hc as <-. apply diff_file_wf_text.
+Qed.
+
+(* ---- the start lines of the second run's diffs ARE aligned (BclWalkPosProofs) -------------------- *)
+(* what remains of [aligned] once the start lines are known: every diff spans the lines of its text *)
+Definition extent_ok (ms : list fdiff) : bool :=
+  forallb (fun m => fd_to m =? fd_from m + fd_nlines m) ms.
+
+Fixpoint rel_ft (V : Z) (ps : list (Z * Z)) (bs : list bool) : Prop :=
+  match ps, bs with
+  | [], [] => True
+  | (a, b) :: pr, fl :: br => a = V + (if fl then 1 else 0) /\ rel_ft b pr br
+  | _, _ => False
+  end.
+
+Lemma lines_rel_ft : forall fs' es V, lines_rel V fs' es ->
+  rel_ft V (map (fun f => (fst (frag_start f), fst (frag_end f) + 1)) fs') (map fst es).
+Proof.
+  induction fs' as [|f r IH]; intros [|[b e] er] V H; cbn [lines_rel] in H; try contradiction; [exact I|].
+  destruct H as [H1 H2]. cbn [map fst rel_ft]. split; [exact H1|]. apply IH. exact H2.
+Qed.
+
+Lemma entries_first_flag fs n last : match map fst (entries fs n true last) with [] => True | b :: _ => b = false end.
+Proof. destruct fs as [|f r]; [exact I|]. destruct f; reflexivity. Qed.
+
+Lemma wf_text_nlines m : wf_text (utf8_encode (fd_text m)) -> 0 < fd_nlines m.
+Proof.
+  intros [x Hx]. unfold fd_nlines. rewrite Hx, text_lines_snoc, split_on_length. lia.
+Qed.
+
+Lemma rel_ft_aligned : forall ms bs V first le,
+  rel_ft V (map (fun d => (fd_from d, fd_to d)) ms) bs ->
+  (first = true -> V = 0 /\ match bs with [] => True | b :: _ => b = false end) ->
+  (first = false -> le = V) ->
+  Forall (fun m => wf_text (utf8_encode (fd_text m))) ms -> extent_ok ms = true ->
+  aligned ms first le = true.
+Proof.
+  induction ms as [|m r IH]; intros bs V first le Hrel Hf1 Hf2 Hw He; [reflexivity|].
+  destruct bs as [|fl br]; cbn [map rel_ft] in Hrel; [contradiction|]. destruct Hrel as [Hfrom Hrest].
+  inversion Hw as [|x l Hm Hr]; subst. cbn [extent_ok forallb] in He. apply andb_true_iff in He. destruct He as [He Her].
+  pose proof (wf_text_nlines m Hm) as Hpos.
+  cbn [aligned]. rewrite He. replace (0 <? fd_nlines m) with true by lia.
+  rewrite (IH br (fd_to m) false (fd_to m) Hrest); [| intros H; discriminate | reflexivity | exact Hr | exact Her].
+  rewrite !andb_true_r. destruct first.
+  - destruct (Hf1 eq_refl) as [HV Hb]. subst fl. lia.
+  - rewrite (Hf2 eq_refl). destruct fl; lia.
+Qed.
+
+(* the second run on the formatter's output, with the positions of the fragments read back *)
+Theorem fmt_output_reread data fs : collect_fragments data = Ok fs ->
+  exists fs', collect_fragments (fmt_join (diff_file fs 0) true (-1)) = Ok fs' /\
+              fmt_join (diff_file fs' 0) true (-1) = fmt_join (diff_file fs 0) true (-1) /\
+              lines_rel 0 fs' (entries fs 0 true (-1)).
+Proof.
+  intros Hc. set (out := fmt_join (diff_file fs 0) true (-1)).
+  pose proof (collect_fragments_lx data fs Hc) as Hlx. pose proof (collect_fragments_gap data fs Hc) as Hgap.
+  destruct (fmt_output_tokens fs Hlx) as (ts & Hlex & Hts). fold out in Hlex.
+  pose proof (entries_stream_ok fs 0 true (-1) Hlx Hgap) as Hok.
+  pose proof (all_tokens_ok true out) as Hch. rewrite Hlex in Hch.
+  destruct (all_tokens_cover true out ts Hlex) as [Hlc _].
+  pose proof (all_tokens_vchain true out ts Hlex) as Hvc.
+  assert (Hwok : wst_ok out (mkW ts None)).
+  { split; [apply valid_pos0|]. split; [apply schain_chain, Hch|]. intros p Hp. discriminate. }
+  destruct (walk_stream_pos out (entries fs 0 true (-1)) (S (length ts)) (mkW ts None) Hok) as (fs' & Hw & Hdocs & Hlines);
+    [rewrite pt_mk; exact Hts|exact Hwok|exact Hlc|exact Hvc|cbn; lia|].
+  assert (Hc' : collect_fragments out = Ok fs').
+  { unfold collect_fragments. rewrite Hlex. unfold walk_fragments. rewrite Hw. reflexivity. }
+  pose proof (collect_fragments_lx out fs' Hc') as Hlx'.
+  exists fs'. split; [exact Hc'|]. split; [|exact Hlines].
+  apply (fmt_join_again fs fs' 0 true (-1) 0 (-1) Hlx Hlx' Hdocs Hlines). intros H. discriminate.
+Qed.
+
+(* FmtDiffs of the formatter's output: empty as soon as every diff of the second run spans exactly the
+   lines of its own text *)
+Theorem fmt_diffs_idem_extent x y : fmt_bytes x = Ok y ->
+  exists ds, collect_fmt (utf8_decode y) = Ok ds /\ y = utf8_encode (fmt_join ds true (-1)) /\
+             (extent_ok ds = true -> fmt_diffs y = Ok []).
+Proof.
+  intros H. destruct (fmt_bytes_runes x y H) as (out & Hout & Hy & Hdec).
+  unfold fmt_runes, collect_fmt in Hout.
+  destruct (collect_fragments (utf8_decode x)) as [fs|e|p|] eqn:Hc; try discriminate.
+  cbn [omap] in Hout. injection Hout as Hout.
+  destruct (fmt_output_reread _ fs Hc) as (fs' & Hc' & Hjoin & Hlines). rewrite Hout in Hc', Hjoin.
+  assert (Hcf : collect_fmt (utf8_decode y) = Ok (diff_file fs' 0)).
+  { rewrite Hdec. unfold collect_fmt. rewrite Hc'. reflexivity. }
+  exists (diff_file fs' 0). split; [exact Hcf|]. split; [rewrite Hjoin; exact Hy|].
+  intros He. apply (fmt_diffs_idem_of_aligned y _ Hcf); [rewrite Hjoin; exact Hy|].
+  apply (rel_ft_aligned _ (map fst (entries fs 0 true (-1))) 0 true (-1)).
+  - rewrite diff_file_from_to. apply lines_rel_ft. exact Hlines.
+  - intros _. split; [reflexivity|apply entries_first_flag].
+  - intros H0. discriminate.
+  - apply diff_file_wf_text.
+  - exact He.
 Qed.
